@@ -191,14 +191,14 @@ def applyEff (w : World) (e : Eff) : Resp × World :=
   | some s => (.unit, { w with st := s, log := w.log ++ [e] })
   | none => (.err .fileNotFound, w)
 
-/-- answer of the world to a primitive, sequential semantics -/
-def respond (w : World) (e : Ev) : Resp × World :=
-  let (failNow, w) :=
-    match w.fault with
-    | none => (false, w)
-    | some f => let (b, f') := f.check e; (b, { w with fault := some f' })
-  if failNow then (.err .osError, w) else
-  match e with
+/-- consult the fault plan: does this primitive fail? (only the plan changes) -/
+def faultStep (w : World) (e : Ev) : Bool × World :=
+  match w.fault with
+  | none => (false, w)
+  | some f => ((f.check e).1, { w with fault := some (f.check e).2 })
+
+/-- answer of the world to a primitive that does not fail by injection -/
+def respondCore (w : World) : Ev → Resp × World
   | .isFile l => (.bool (w.st.isFile l), w)
   | .readRef (.pidRef k) =>
       (match w.st.pidRefs.get k with | some t => .text t | none => .err .fileNotFound, w)
@@ -226,6 +226,10 @@ def respond (w : World) (e : Ev) : Resp × World :=
       else (.err .valueError, w)
   | .isLocked c id => (.bool (id ∈ w.lk.get c), w)
 
+/-- answer of the world to a primitive, sequential semantics -/
+def respond (w : World) (e : Ev) : Resp × World :=
+  if (faultStep w e).1 then (.err .osError, (faultStep w e).2) else respondCore (faultStep w e).2 e
+
 namespace Prog
 /-- sequential big-step run -/
 def run {α : Type} : Prog α → World → α × World
@@ -236,6 +240,17 @@ def run {α : Type} : Prog α → World → α × World
 def runLog {α : Type} : Prog α → World → List Ev → α × World × List Ev
   | .ret a, w, acc => (a, w, acc.reverse)
   | .op e k, w, acc => let rw := respond w e; runLog (k rw.1) rw.2 (e :: acc)
+
+/-- sequential run that also returns the store after every file-system effect
+    (the states a crash or a concurrent reader can observe) -/
+def runSnap {α : Type} : Prog α → World → List Store → α × World × List Store
+  | .ret a, w, acc => (a, w, acc.reverse)
+  | .op e k, w, acc =>
+    let rw := respond w e
+    match e with
+    | .eff _ => if rw.2.log.length > w.log.length then runSnap (k rw.1) rw.2 (rw.2.st :: acc)
+                else runSnap (k rw.1) rw.2 acc
+    | _ => runSnap (k rw.1) rw.2 acc
 
 def Ev.isMutating : Ev → Bool
   | .eff _ => true
